@@ -168,7 +168,7 @@ func runRound(ci interface{}, s *vkit.Stats) error {
 	total := c.Mockers + c.Callers
 	errs := make([]error, total)
 	var wg sync.WaitGroup
-	var steadyCalls, mockOps, refusedRestubs int64
+	var steadyCalls, mockOps, refusedRestubs, tinyOps int64
 	yieldOf := func(g int) int {
 		if len(c.Yields) == 0 {
 			return 0
@@ -233,6 +233,19 @@ func runRound(ci interface{}, s *vkit.Stats) error {
 						runtime.Gosched()
 					}
 				}
+				// tiny adjacent functions: neighbours (two per 64-byte line) belong to different mocker goroutines
+				for ti := g; ti < len(corpus.Tiny); ti += c.Mockers {
+					want := 7000 + 100*g + it
+					if pv := guard(func() { b.Func(corpus.Tiny[ti]).Return(want) }); pv != nil {
+						errs[g] = fmt.Errorf("mocker %d: stubbing Tiny%02d panicked: %v", g, ti, pv)
+						return
+					}
+					if got := corpus.Tiny[ti](it); got != want {
+						errs[g] = fmt.Errorf("mocker %d iteration %d: after its own Return, Tiny%02d(%d) = %d, want %d (a neighbour's apply or reset touched it?)", g, it, ti, it, got, want)
+						return
+					}
+					atomic.AddInt64(&tinyOps, 1)
+				}
 				if g < len(refusers) && it%3 == 0 {
 					// a re-stub that goom refuses (an origin placeholder on a prologue it cannot relocate) over this goroutine's own live mock
 					z := refusers[g]
@@ -251,6 +264,12 @@ func runRound(ci interface{}, s *vkit.Stats) error {
 					e := reflect.ValueOf(z.Fn).Pointer()
 					if live := vkit.Bytes(e, 13); !bytes.Equal(live, img.Pristine[e-img.Addr:e-img.Addr+13]) {
 						errs[g] = fmt.Errorf("mocker %d iteration %d: after a refused re-stub and its own Reset, the entry of %s reads % x (not restored)", g, it, z.Name, live)
+						return
+					}
+				}
+				for ti := g; ti < len(corpus.Tiny); ti += c.Mockers {
+					if got := corpus.Tiny[ti](it); got != it+100+ti {
+						errs[g] = fmt.Errorf("mocker %d iteration %d: after its own Reset, Tiny%02d(%d) = %d, want the original %d", g, it, ti, it, got, it+100+ti)
 						return
 					}
 				}
@@ -336,6 +355,7 @@ func runRound(ci interface{}, s *vkit.Stats) error {
 		return fmt.Errorf("at quiescence a text page is %s", w[0].Perm)
 	}
 	s.ClassN("refused-restubs-over-a-live-mock", int(refusedRestubs))
+	s.ClassN("stubs-on-tiny-neighbours-sharing-a-64-byte-line", int(tinyOps))
 	s.ClassN("steady-calls", int(steadyCalls))
 	s.ClassN("mocker-apply-restub-reset-cycles", int(mockOps))
 	s.Class("rounds")
@@ -364,7 +384,7 @@ func TestVerifC11(t *testing.T) {
 		}
 		b.Reset()
 	}
-	p := &vkit.Prop{ID: "C11", Unit: "rounds", New: func() interface{} { return &roundCase{} },
+	p := &vkit.Prop{ID: "C11", Unit: "rounds", Journal: true, New: func() interface{} { return &roundCase{} },
 		Gen: func(rt *rapid.T) interface{} {
 			return &roundCase{Mockers: rapid.IntRange(2, 8).Draw(rt, "mockers"), Callers: rapid.IntRange(2, 8).Draw(rt, "callers"),
 				Iters: rapid.IntRange(3, 25).Draw(rt, "iters"), Window: rapid.IntRange(0, 4).Draw(rt, "window"),
